@@ -743,6 +743,25 @@ func encRules(c *Ctx) {
 				if isBuiltin(info, x, "delete") && len(x.Args) == 2 {
 					report("delete", x.Args[0], x.Args[1], x.Pos())
 				}
+				// ENC-SUBSTR: names of the document range over an alphabet that contains any word: a key, pointer,
+				// $ref string or name is never classified by searching it for a word (strings.Contains(k, "OAIGen")
+				// took a definition of the user's for a generated one: defect F26)
+				if callee := c.P.CalleeAny(fi, x); callee != nil && callee.Pkg() != nil && callee.Pkg().Path() == "strings" && len(x.Args) == 2 {
+					switch callee.Name() {
+					case "Contains", "Index", "LastIndex", "Count":
+						needle, isConst := core.ConstString(info, x.Args[1])
+						word := false
+						for _, r := range needle {
+							if r >= 'a' && r <= 'z' || r >= 'A' && r <= 'Z' || r >= '0' && r <= '9' {
+								word = true
+							}
+						}
+						if d := e.dom(fi, x.Args[0]); isConst && word && (d == dK || d == dP || d == dU || d == dT || d == dN) {
+							c.S.Violate(prop, "ENC-SUBSTR", fi.QName()+"/"+callee.Name()+" "+fmt.Sprintf("%q", needle), c.P.Pos(x.Pos()),
+								"the "+domText(d)+" "+exprStr(x.Args[0])+" is searched for the word "+fmt.Sprintf("%q", needle)+": names of the document may contain it, so what the test classifies (a generated definition, a section) is also matched by definitions and properties of the user's — they are then rewritten or deleted as if generated")
+						}
+					}
+				}
 				if callee := c.P.CalleeAny(fi, x); callee != nil && (callee.FullName() == "github.com/go-openapi/spec.MustCreateRef") && len(x.Args) == 1 {
 					nRefs++
 					a := core.Unparen(x.Args[0])
